@@ -88,7 +88,7 @@ impl IoSched for PipeSched {
     }
     fn io_done(&self, kind: Kind, _fd: i32, _ino: u64, arg: i64, _ok: bool) {
         match kind {
-            Kind::Close => say("I released"),
+            Kind::Close | Kind::Munmap => say("I released"),
             Kind::Flock if arg & (libc::LOCK_UN as i64) != 0 => say("I released"),
             _ => {}
         }
@@ -98,7 +98,55 @@ impl IoSched for PipeSched {
 static PIPE_SCHED: PipeSched = PipeSched;
 
 /// The body of one opener process (runs in a forked copy of the worker, never returns).
-fn child_body(path: &str, i: usize, n: usize, init_fault: bool, second_fd: bool) -> ! {
+/// A commit whose first sync fails (it must report the error), then a commit that has to grow
+/// the file and map it again (it must succeed).  Used by the thread and the process openers.
+pub fn sync_fault_then_growth(db: &jammdb::DB) -> Result<(), String> {
+    let r = real::guarded(|| -> Result<(), String> {
+        let tx = db.tx(true).map_err(|e| format!("tx(true): {:?}", e))?;
+        let b = tx.get_or_create_bucket("junk").map_err(|e| format!("{:?}", e))?;
+        b.put("j", "v").map_err(|e| format!("{:?}", e))?;
+        drop(b);
+        iosim::with_plan(|p| {
+            p.armed = true;
+            p.calls = 0;
+            p.call_kinds.clear();
+            p.fault_fired = false;
+            p.fault = Some(iosim::Fault::nth(Kind::Fsync, 0, libc::EIO));
+        });
+        let res = tx.commit();
+        let fired = iosim::with_plan(|p| {
+            p.armed = false;
+            p.fault = None;
+            p.fault_fired
+        })
+        .unwrap_or(false);
+        match res {
+            Err(_) if fired => Ok(()),
+            Ok(()) if fired => Err("the commit whose sync failed returned Ok".into()),
+            Ok(()) => Ok(()),
+            Err(e) => Err(format!("commit failed although no fault fired: {:?}", e)),
+        }
+    });
+    match r {
+        Ok(Ok(())) => {}
+        Ok(Err(e)) => return Err(e),
+        Err(p) => return Err(format!("panicked in the commit whose sync fails: {}", p.replace('\n', " "))),
+    }
+    let r = real::guarded(|| -> Result<(), String> {
+        let tx = db.tx(true).map_err(|e| format!("tx(true) after the failed commit: {:?}", e))?;
+        let b = tx.get_or_create_bucket("junk").map_err(|e| format!("{:?}", e))?;
+        b.put("big", vec![7u8; 60_000]).map_err(|e| format!("{:?}", e))?;
+        drop(b);
+        tx.commit().map_err(|e| format!("growing commit after the failed one: {:?}", e))
+    });
+    match r {
+        Ok(Ok(())) => Ok(()),
+        Ok(Err(e)) => Err(e),
+        Err(p) => Err(format!("panicked in the growing commit: {}", p.replace('\n', " "))),
+    }
+}
+
+fn child_body(path: &str, i: usize, n: usize, init_fault: bool, second_fd: bool, sync_fault_grow: bool) -> ! {
     let path = path.to_string();
     let dir = std::path::Path::new(&path).parent().unwrap().to_string_lossy().to_string();
     iosim::set_track_prefix(&dir);
@@ -108,7 +156,7 @@ fn child_body(path: &str, i: usize, n: usize, init_fault: bool, second_fd: bool)
         plan.fault = Some(iosim::Fault::nth(Kind::Fallocate, 0, libc::ENOSPC));
     }
     iosim::install_plan(plan);
-    let cfg = Cfg { num_pages: 16, ..Cfg::default() };
+    let cfg = Cfg { num_pages: 16 * (i + 1), ..Cfg::default() };
     let opened = real::guarded(|| cfg.open(&path));
     let fired = init_fault
         && iosim::with_plan(|p| {
@@ -135,6 +183,11 @@ fn child_body(path: &str, i: usize, n: usize, init_fault: bool, second_fd: bool)
     let helper = db.clone();
     drop(helper);
     say("I entered");
+    if sync_fault_grow {
+        if let Err(e) = sync_fault_then_growth(&db) {
+            say(&format!("I err {}", e));
+        }
+    }
     let r = real::guarded(|| -> Result<Vec<usize>, String> {
         let tx = db.tx(true).map_err(|e| format!("tx(true): {:?}", e))?;
         let b = tx.get_or_create_bucket("openers").map_err(|e| format!("{:?}", e))?;
@@ -228,6 +281,8 @@ pub struct PCase {
     pub init_fault: Option<usize>,
     /// every opener also opens, reads and closes the file through a second descriptor while inside
     pub second_fd: bool,
+    /// this opener first runs a commit whose first sync fails, then one that grows the file
+    pub sync_fault_grow: Option<usize>,
 }
 
 #[derive(Default)]
@@ -319,7 +374,7 @@ fn reap(procs: &mut [Proc]) {
 }
 
 /// forks one opener; the child never returns
-fn spawn_opener(path: &str, i: usize, n: usize, init_fault: bool, second_fd: bool) -> Result<Proc, String> {
+fn spawn_opener(path: &str, i: usize, n: usize, init_fault: bool, second_fd: bool, sync_fault_grow: bool) -> Result<Proc, String> {
     let mut to_child = [0i32; 2];
     let mut from_child = [0i32; 2];
     unsafe {
@@ -340,7 +395,7 @@ fn spawn_opener(path: &str, i: usize, n: usize, init_fault: bool, second_fd: boo
             }
             CHILD_IN.store(to_child[0], std::sync::atomic::Ordering::Relaxed);
             CHILD_OUT.store(from_child[1], std::sync::atomic::Ordering::Relaxed);
-            child_body(path, i, n, init_fault, second_fd);
+            child_body(path, i, n, init_fault, second_fd, sync_fault_grow);
         }
         libc::syscall(libc::SYS_close, to_child[0]);
         libc::syscall(libc::SYS_close, from_child[1]);
@@ -365,7 +420,7 @@ pub fn run_one(case: &PCase, path: &str, prefix: &[u8]) -> (ExecResult, Vec<Judg
     let n = case.openers;
     let mut procs: Vec<Proc> = vec![];
     for i in 0..n {
-        match spawn_opener(path, i, n, case.init_fault == Some(i), case.second_fd) {
+        match spawn_opener(path, i, n, case.init_fault == Some(i), case.second_fd, case.sync_fault_grow == Some(i)) {
             Ok(p) => procs.push(p),
             Err(e) => {
                 reap(&mut procs);
@@ -526,7 +581,7 @@ pub fn run_one(case: &PCase, path: &str, prefix: &[u8]) -> (ExecResult, Vec<Judg
 pub fn debug_run(args: &[String]) {
     let scratch = crate::report::scratch_dir();
     let path = format!("{}/c13p-debug.db", scratch);
-    let case = PCase { openers: args[0].parse().unwrap(), file_exists: args[1] == "1", init_fault: None, second_fd: args.get(3).map(|s| s == "1").unwrap_or(false) };
+    let case = PCase { openers: args[0].parse().unwrap(), file_exists: args[1] == "1", init_fault: None, second_fd: args.get(3).map(|s| s == "1").unwrap_or(false), sync_fault_grow: None };
     let prefix: Vec<u8> = args.get(2).map(|s| s.split(',').filter(|x| !x.is_empty()).map(|x| x.parse().unwrap()).collect()).unwrap_or_default();
     let t0 = std::time::Instant::now();
     let (res, js, outcome) = run_one(&case, &path, &prefix);
